@@ -190,3 +190,113 @@ func pendingSeeds(fn *ssa.Function, nt *types.Named, field string) []ssa.Value {
 	}
 	return out
 }
+
+// c04ReporterQueues: in the line/message services that report from a separate goroutine (smtp), the protocol loop
+// hands each parsed line and each message to the reporter over channels the reporter drains with one select, next to
+// a "connection done" arm that ends it. With rendezvous (unbuffered) channels every hand-over completes before the
+// protocol loop goes on, so nothing is pending when done closes and lines and messages stay in the order parsed. A
+// buffered channel breaks both: what is still queued when the session ends is dropped, and select takes from two
+// non-empty queues in random order (the email event overtakes the commands that produced it).
+func c04ReporterQueues(c *Ctx) {
+	p := c.P
+	const rule = "reporter-handover-synchronous"
+	var makesOf func(v ssa.Value, depth int) ([]*ssa.MakeChan, bool)
+	makesOf = func(v ssa.Value, depth int) ([]*ssa.MakeChan, bool) {
+		if depth > 4 {
+			return nil, false
+		}
+		switch x := v.(type) {
+		case *ssa.MakeChan:
+			return []*ssa.MakeChan{x}, true
+		case *ssa.ChangeType:
+			return makesOf(x.X, depth+1)
+		case *ssa.UnOp:
+			switch y := x.X.(type) {
+			case *ssa.Alloc:
+				var out []*ssa.MakeChan
+				for _, sv := range StoredValues(y) {
+					m, ok := makesOf(sv, depth+1)
+					if !ok {
+						return nil, false
+					}
+					out = append(out, m...)
+				}
+				return out, len(out) > 0
+			case *ssa.FreeVar:
+				if b := freeVarBinding(y); b != nil {
+					if a, ok := b.(*ssa.Alloc); ok {
+						var out []*ssa.MakeChan
+						for _, sv := range StoredValues(a) {
+							m, ok := makesOf(sv, depth+1)
+							if !ok {
+								return nil, false
+							}
+							out = append(out, m...)
+						}
+						return out, len(out) > 0
+					}
+				}
+			}
+		case *ssa.FreeVar:
+			if b := freeVarBinding(x); b != nil {
+				return makesOf(b, depth+1)
+			}
+		}
+		return nil, false
+	}
+	n := 0
+	for _, fn := range p.FuncsIn("services/smtp") {
+		if fn.Parent() == nil {
+			continue // reporters are goroutine closures of Handle
+		}
+		for _, b := range fn.Blocks {
+			for _, in := range b.Instrs {
+				sel, ok := in.(*ssa.Select)
+				if !ok || !sel.Blocking {
+					continue
+				}
+				recvs := 0
+				for _, st := range sel.States {
+					if st.Send == nil {
+						recvs++
+					}
+				}
+				if recvs < 2 || !emitsAfter(fn, sel) {
+					continue
+				}
+				for i, st := range sel.States {
+					if st.Send != nil {
+						continue
+					}
+					n++
+					key := fmt.Sprintf("%s select arm %d (%s)", shortFn(fn), i, RenderN(st.Chan, 2))
+					mk, ok := makesOf(st.Chan, 0)
+					if !ok {
+						c.Undecided(rule, key, p.InstrPos(sel), "cannot find where this channel is made")
+						continue
+					}
+					bad := ""
+					for _, m := range mk {
+						if sz, isC := ConstInt(m.Size); !isC || sz != 0 {
+							bad = p.InstrPos(m)
+						}
+					}
+					c.Check(bad == "", rule, key, p.InstrPos(sel), "rendezvous channel", "the reporting goroutine drains this channel in a select next to its termination arm, and the channel is buffered (made at "+bad+"): lines/messages still queued when the session ends are never reported, and with more than one non-empty queue select no longer takes them in the order the client sent them")
+				}
+			}
+		}
+	}
+	c.Floor(rule, 3, "smtp reporter: done, message and line arms")
+}
+
+// emitsAfter: the function sends an event somewhere (it is a reporter).
+func emitsAfter(fn *ssa.Function, _ *ssa.Select) bool {
+	for _, b := range fn.Blocks {
+		for _, in := range b.Instrs {
+			if emitsEvent(in, 1) {
+				return true
+			}
+		}
+	}
+	return false
+}
